@@ -104,7 +104,12 @@ Lemma if_truth_first_some : forall (A : Type) (x y : option A),
 Proof. intros A [a|] y; reflexivity. Qed.
 
 Ltac via_fix :=
-  unfold gen_init; rewrite gen_fix_correct; do 2 f_equal.
+  unfold gen_init; rewrite gen_fix_correct; do 2 f_equal;
+  try (unfold neg, abs_rd, add_rd, sub_rd, mul_int, mul_with, build, fix_rd, rd_of_obj, map_rel, zip_rel,
+              zip_abs, nz, or_zz, truth_z;
+       cbn [rel leapdays ab wd f_years f_months f_days f_hours f_minutes f_seconds f_us
+            a_year a_month a_day a_hour a_minute a_second a_us];
+       unf_obj; repeat first [ reflexivity | lia | progress f_equal ]).
 
 Theorem gen_neg_correct : forall o, gen_neg o = GOk (obj_of_rd (neg (rd_of_obj o))).
 Proof.
@@ -137,6 +142,13 @@ Proof.
   unfold gen_sub. unf_obj. rewrite !if_truth_first_some. via_fix.
 Qed.
 
+Theorem gen_add_td_correct : forall o t,
+  gen_add_td o t = GOk (obj_of_rd (add_td (rd_of_obj o) (td_days t) (td_seconds t) (td_microseconds t))).
+Proof.
+  intros [y mo dd l h mi s us ay am ad ah ami asec aus w ht] [[td ts] tu].
+  unfold gen_add_td, add_td, td_days, td_seconds, td_microseconds. unf_obj. via_fix.
+Qed.
+
 (* ---------------------------------------------------------------- __bool__, __eq__, __hash__ *)
 Theorem gen_bool_correct : forall o, gen_bool o = GOk (rd_bool (rd_of_obj o)).
 Proof.
@@ -161,6 +173,9 @@ Proof.
     try (f_equal; and_chain);
     try (exfalso; lia).
 Qed.
+
+Theorem gen_ne_correct : forall a b, gen_ne a b = GOk (negb (eqb (rd_of_obj a) (rd_of_obj b))).
+Proof. intros a b. unfold gen_ne. rewrite gen_eq_correct. reflexivity. Qed.
 
 (* the tuple handed to hash(), in the order of the source *)
 Definition tuple_of_key (k : option (Z * Z) * relf * Z * absf) :=
